@@ -899,7 +899,7 @@ def run(rep, tier, seed, deep=False):
                 "or (format, member list)" % (len(all_configs()), per_cfg, len(DIRECTED_HOSTILE), n_hostile))
     rep.assumptions = [
         "zipfile/tarfile (container bytes, compression, name encoding) are external: the member list they report is compared with the model's, not derived",
-        "TZ=UTC (zip stores local broken-down time; see the time-zone finding); mtimes within 1980..2099 (zipfile rejects earlier years)",
+        "TZ=UTC (zip stores local broken-down time; see the time-zone finding); mtimes within 1980..2099 (zipfile rejects earlier years), plus the epoch itself (0, 1, 2 s) for tar",
         "only directories and regular files (tar symlinks / devices are outside the model); lone surrogates in names are outside the model",
         "the `encoding` argument only matters on Python 2 and is not varied",
     ]
@@ -909,6 +909,10 @@ def run(rep, tier, seed, deep=False):
         for cfg in all_configs():
             roundtrip_case(rep, drv, cfg, [], {})
             roundtrip_case(rep, drv, cfg, fixed, {e[1]: 981173106 + i for i, e in enumerate(fixed)})
+            if cfg[0].startswith("tar"):
+                # tar holds the epoch itself and the first seconds after it (zip starts in 1980): a time of
+                # exactly 0 is a time like any other
+                roundtrip_case(rep, drv, cfg, fixed, {e[1]: [0, 1, 0, 2, 0, 315532800, 0][i] for i, e in enumerate(fixed)})
         for cfg in all_configs():
             for _ in range(per_cfg):
                 tree = gen_tree(rng, not quick)
